@@ -97,6 +97,7 @@ type ctx struct {
 	nPoison int
 	sigList []string
 	sigSeen map[string]bool
+	within  withinState // within.go: one statement reading a column several times around a mutating candidate
 }
 
 // atoms of each type in a row context (table t) and in a function-body context (parameters)
@@ -1042,14 +1043,18 @@ func runChild(seed int64, n int, dir string, withCorpus bool) {
 		// every statement kind and operand position of the grammar, operands of every type from every kind of holder
 		// (workloads.go, grammar.go)
 		c.grammarPhase(repo, true, 0)
+		// every aggregate / list / analytic function x modifier between two probes of the same column (within.go)
+		c.withinPhase(repo, true, 0)
 	}
 	for it := 0; it < n; it++ {
 		c.seq++
-		kind := []string{"plain", "plain", "while", "udf", "prepared", "reread_table", "reread_cursor", "reread_variable", "dtcell", "fromlist", "dml_alias", "uda_pool", "extra_column", "cte_twice", "dispose_shared", "unary", "multi_dml", "grammar"}[it%18]
+		kind := []string{"plain", "plain", "while", "udf", "prepared", "reread_table", "reread_cursor", "reread_variable", "dtcell", "fromlist", "dml_alias", "uda_pool", "extra_column", "cte_twice", "dispose_shared", "unary", "multi_dml", "grammar", "within"}[it%19]
 		o.Count("kind:" + kind)
 		switch kind {
 		case "grammar":
 			c.grammarPhase(repo, false, 2)
+		case "within":
+			c.withinPhase(repo, false, 8)
 		case "plain":
 			q, form := c.selectStmt()
 			r1, e1 := c.execChecked(q+";", kind)
